@@ -234,10 +234,17 @@ type world struct {
 
 func genWorld(r *rand.Rand, c *Cfg, adversarial bool) *world {
 	w := &world{Objs: map[string][]string{}}
+	// object names are not namespaced inside keto (the UUID of an object is derived
+	// from its name alone): half of the worlds use the SAME object names in every
+	// namespace, so that Doc:x0 and Folder:x0 are different objects with one UUID
+	shared := r.IntN(2) == 0
 	for _, n := range c.NS {
 		k := 2 + r.IntN(3)
 		for i := 0; i < k; i++ {
 			name := fmt.Sprintf("%s%d", strings.ToLower(n.Name[:1]), i)
+			if shared {
+				name = fmt.Sprintf("x%d", i)
+			}
 			if adversarial && r.IntN(4) == 0 {
 				name = advString(r)
 			}
